@@ -5,7 +5,7 @@ import itertools
 import random
 from typing import Any, Dict, Iterable, List, Optional
 
-from harness.core import Case, Check, Finding, call, canon, short
+from harness.core import OUTSIDE, Case, Check, Finding, call, canon, short
 
 Pts = List[List[int]]
 
@@ -58,6 +58,54 @@ def is_cyclic_variant(a: List[tuple], b: List[tuple]) -> bool:
             if cand[i:] + cand[:i] == a:
                 return True
     return False
+
+
+# ---------------------------------------------------------------------------------------
+# the level at which model and implementation are compared (WAVE 3; DESIGN §10 weak spot (2))
+#
+# The statement fixes of a derived outline: "its vertices are input points listed in boundary order, its bounding
+# box is the union of the inputs' boxes, and no input point lies outside it" — neither a start vertex nor a
+# direction.  A derived vertex list is therefore compared UP TO ROTATION AND REFLECTION; the one- and two-vertex
+# results (the "1- and 2-point cases" of the quantifier and the segment of points on one line) AS SETS; the box
+# exactly.  Nowhere does the statement name an exception class: outcomes are compared rejected-vs-accepted.
+# ---------------------------------------------------------------------------------------
+
+def same_outline(a, b) -> bool:
+    """two vertex lists describe the same outline: equal up to rotation / reflection (>= 3 vertices each),
+    equal as sets of points otherwise"""
+    if a is None or b is None:
+        return a is None and b is None
+    ta, tb = [tuple(p) for p in a], [tuple(p) for p in b]
+    if len(ta) <= 2 or len(tb) <= 2:
+        return set(ta) == set(tb)
+    return is_cyclic_variant(ta, tb)
+
+
+def norm_err(r: Any) -> Any:
+    """{'err': <class>} -> {'err': 'rejected'} (the statement names no exception class)"""
+    if isinstance(r, dict) and 'err' in r:
+        return {'err': 'rejected'}
+    return r
+
+
+def same_coords_outcome(a: Any, b: Any) -> bool:
+    """two outcomes {'ok': {'points','x','y','w','h'} | None} / {'err': ..}: both rejected, or the same box
+    (exactly) and the same outline (up to rotation / reflection)"""
+    a, b = norm_err(a), norm_err(b)
+    if 'err' in a or 'err' in b:
+        return a == b
+    ca, cb = a['ok'], b['ok']
+    if ca is None or cb is None:
+        return ca is None and cb is None
+    return all(ca[k] == cb[k] for k in ('x', 'y', 'w', 'h')) and same_outline(ca['points'], cb['points'])
+
+
+def same_points_outcome(a: Any, b: Any) -> bool:
+    """two outcomes {'ok': points | None} / {'err': ..}"""
+    a, b = norm_err(a), norm_err(b)
+    if 'err' in a or 'err' in b:
+        return a == b
+    return same_outline(a['ok'], b['ok'])
 
 
 def hull_judgement(vs, pts) -> Optional[str]:
@@ -173,6 +221,39 @@ def real_hull(pts: Pts) -> Optional[Pts]:
     return [list(p) for p in r['ok']] if 'ok' in r else None
 
 
+def model_hull(pts: Pts) -> Optional[Pts]:
+    """the outline the MODEL will list for these points: the library's edge dict walked from the smallest node,
+    first unvisited neighbour first (Model/C09.lean `edgesToHullPoints`).  Only used to put the library's answer
+    for THAT vertex list into the table the model may consult (the area of a derived outline is the hull of the
+    outline's own points): when the implementation starts its outline elsewhere, the model's second hull request
+    is about its own listing, not the implementation's.  A wrong guess here can only make the model miss a table
+    row (KeyError -> reported disagreement), never hide one."""
+    co, _, _ = _real()
+    if len(pts) <= 2:
+        return None
+    r = call(lambda: co.points_to_hull_edges(tup(pts)))
+    if 'ok' not in r or not r['ok']:
+        return None
+    e = r['ok']
+    nodes = list(e)
+    cur = min(nodes)
+    seen = [cur]
+    for _ in range(len(nodes)):
+        if len(seen) >= len(nodes):
+            break
+        nxt = next((q for q in e[cur] if q not in seen), None)
+        if nxt is None:
+            continue
+        seen.append(nxt)
+        cur = nxt
+    return [list(p) for p in seen]
+
+
+def hulls(pts: Pts) -> List[Pts]:
+    """the outline as the implementation lists it and as the model lists it (equal on the pinned tree)"""
+    return [h for h in (real_hull(pts), model_hull(pts)) if h]
+
+
 def mk_line(pdm, co, pts, **kw):
     return pdm.PageXMLTextLine(coords=co.Coords(tup(pts)) if pts is not None else None, **kw)
 
@@ -258,7 +339,12 @@ class C09(Check):
         'SAMPLED, not proved: that the answers of scipy.spatial.ConvexHull pass HullCert / cycleDict (evaluated by '
         'the Lean driver on every sampled call, both for the hull of the points and for the hull of the hull '
         'vertices; exhaustively for all subsets of a 4x4 lattice in the thorough tier), and that shapely '
-        'Polygon.area = |shoelace|/2.')
+        'Polygon.area = |shoelace|/2. CORRESPONDENCE LEVEL: a derived vertex list is compared with the model\'s up '
+        'to rotation and reflection (the statement fixes boundary order, not the start vertex or the direction), '
+        'one-/two-vertex results (<= 2 points, points on one line) as sets, boxes and areas exactly, assigned '
+        'coordinates point by point, outcomes as rejected-vs-accepted (no exception class is part of the '
+        'statement); empty collections, documents / children without coordinates, non-child arguments of '
+        'add_child and regions with own Coords are outside the quantifier (tagged, differences only recorded).')
     assumptions = [
         'scipy.spatial.ConvexHull is a deterministic function of the point array; its simplices form the boundary '
         'cycle of the strict convex hull (checked per sampled call by HullCert / cycleDict in the Lean driver)',
@@ -366,7 +452,17 @@ class C09(Check):
                 ops.append(['coords'])
             else:
                 ops.append(['set', pts() if rng.random() < 0.8 else None])
-        return Case('history', {'elem': elem, 'init': init, 'kids': kids, 'ops': ops}, tags)
+        return Case('history', {'elem': elem, 'init': init, 'kids': kids, 'ops': ops},
+                    list(tags) + self._history_outside(nslots, ops))
+
+    @staticmethod
+    def _history_outside(nslots: int, ops) -> List[str]:
+        """The quantifier is "all sequences of add-child calls" over "collections of coordinate objects": a history
+        that tries to attach a child WITHOUT coordinates, or something that is no child of the element at all, lies
+        outside it.  The model still mirrors what the code does then (the call fails, the child stays attached /
+        nothing is attached), but a difference there is an observation, not a broken obligation."""
+        bad = any(op[0] == 'add' and (op[2] is None or op[1] >= nslots) for op in ops)
+        return [OUTSIDE, 'invalid-add'] if bad else []
 
     def _walk_case(self, rng: random.Random, tags) -> Case:
         n = rng.randint(3, 12)
@@ -398,8 +494,10 @@ class C09(Check):
         lines = grp() if r < 0.85 else []
         regions = grp() if r > 0.25 else []
         own = self._rand_points(rng, rng.randint(1, 4), style, mag) if rng.random() < 0.15 else None
+        # the statement is about "regions WITHOUT own Coords": a region that has its own keeps them (C01's subject);
+        # mirrored by the model, outside this property's quantifier
         return Case('region', {'lines': lines, 'regions': regions, 'lines_first': rng.random() < 0.5, 'own': own},
-                    tags)
+                    list(tags) + ([OUTSIDE, 'own-coords'] if own is not None else []))
 
     def _caller_case(self, rng: random.Random, tags) -> Case:
         which = rng.choice(['merge_lines', 'make_derived_column', 'make_rows_from_cells', 'merge_textregions',
@@ -424,7 +522,12 @@ class C09(Check):
         out.append(Case('history', {'elem': 'page', 'init': None, 'kids': [[1, sq]],
                                     'ops': [['area'], ['add', 3, [[9, 9], [9, 1]]], ['area'], ['add', 0, [[-3, 2]]],
                                             ['area'], ['set', None], ['area'], ['add', 4, [[0, 0]]], ['area'],
-                                            ['add', 2, None], ['area'], ['coords']]}, ['corpus']))
+                                            ['add', 2, None], ['area'], ['coords']]},
+                        ['corpus', OUTSIDE, 'invalid-add']))       # (a Word / a child without coords is added)
+        out.append(Case('history', {'elem': 'page', 'init': None, 'kids': [[1, sq]],
+                                    'ops': [['area'], ['add', 3, [[9, 9], [9, 1]]], ['area'], ['add', 0, [[-3, 2]]],
+                                            ['area'], ['set', None], ['area'], ['add', 2, [[0, 0]]], ['area'],
+                                            ['add', 1, [[7, -2], [8, 8]]], ['area'], ['coords']]}, ['corpus']))
         out.append(Case('history', {'elem': 'region', 'init': None, 'kids': [],
                                     'ops': [['area'], ['add', 1, [[1, 1]]], ['area'], ['add', 1, [[2, 2]]], ['area'],
                                             ['add', 1, [[3, 3]]], ['area'], ['add', 0, [[3, 0]]], ['area']]},
@@ -437,8 +540,11 @@ class C09(Check):
             out.append(self._derive_case(rng, pts, ['corpus']))
             for via in ('list', 'coords', 'doc'):
                 out.append(Case('area', {'points': pts, 'via': via}, ['corpus']))
-        out.append(Case('derive', {'docs': [], 'shift': [0, 0], 'shuffle_seed': 0}, ['corpus', 'malformed']))
-        out.append(Case('derive', {'docs': [sq, None], 'shift': [1, 1], 'shuffle_seed': 0}, ['corpus', 'malformed']))
+        # "all NON-EMPTY collections of COORDINATE OBJECTS": an empty collection and a document without coordinates
+        # are outside the quantifier (mirrored by the model, not judged by the oracle, differences only recorded)
+        out.append(Case('derive', {'docs': [], 'shift': [0, 0], 'shuffle_seed': 0}, ['corpus', 'malformed', OUTSIDE]))
+        out.append(Case('derive', {'docs': [sq, None], 'shift': [1, 1], 'shuffle_seed': 0},
+                        ['corpus', 'malformed', OUTSIDE]))
         out.append(Case('region', {'lines': [[[0, 0], [10, 0], [10, 10], [0, 10]]],
                                    'regions': [[[100, 100], [200, 100], [200, 200]]], 'lines_first': True,
                                    'own': None}, ['corpus', 'regression-75c00fd']))
@@ -482,7 +588,9 @@ class C09(Check):
                 docs[rng.randrange(len(docs))] = None
             elif rng.random() < 0.5:
                 docs = []
-            out.append(Case('derive', {'docs': docs, 'shift': [1, 2], 'shuffle_seed': 1}, ['random', 'malformed']))
+            # (the `elif` above leaves a few of these well-formed: only the empty / coords-less ones are outside)
+            out.append(Case('derive', {'docs': docs, 'shift': [1, 2], 'shuffle_seed': 1},
+                            ['random', 'malformed'] + ([OUTSIDE] if not docs or any(d is None for d in docs) else [])))
         return out
 
     # ------------------------------------------------------------------------ implementation
@@ -648,8 +756,7 @@ class C09(Check):
         inp = case.input
         if case.kind == 'derive':
             allp = flat(inp['docs'])
-            h = real_hull(allp)
-            table = hull_table([allp] + ([h] if h else []))
+            table = hull_table([allp] + hulls(allp))
             reqs = [{'p': 'C09', 'op': 'derive', 'args': {'docs': inp['docs'], 'table': table}}]
             sim = simplices(allp)
             if sim is not None:
@@ -676,9 +783,7 @@ class C09(Check):
                     p = ordered_points(nslots, kids)
                     if p is not None:
                         cands.append(p)
-                        h = real_hull(p)
-                        if h:
-                            cands.append(h)
+                        cands.extend(hulls(p))
             return [{'p': 'C09', 'op': 'history',
                      'args': {'nslots': nslots, 'init': inp['init'], 'kids': inp['kids'], 'ops': inp['ops'],
                               'table': hull_table(cands)}}]
@@ -686,8 +791,7 @@ class C09(Check):
             # text_regions + lines, the order the repaired code (75c00fd) and add_child use
             docs = [d for d in inp['regions'] + inp['lines'] if d is not None]
             allp = flat(docs)
-            h = real_hull(allp)
-            table = hull_table([allp] + ([h] if h else []))
+            table = hull_table([allp] + hulls(allp))
             reqs = [{'p': 'C09', 'op': 'region', 'args': {'own': inp['own'], 'regions': inp['regions'],
                                                            'lines': inp['lines'], 'table': table}}]
             if inp['own'] is None and docs:
@@ -700,17 +804,21 @@ class C09(Check):
             if 'ok' in out and isinstance(out['ok'], list):
                 for item in out['ok']:
                     allp = flat(item['docs'])
-                    h = real_hull(allp)
                     reqs.append({'p': 'C09', 'op': 'derive',
-                                 'args': {'docs': item['docs'], 'table': hull_table([allp] + ([h] if h else []))}})
+                                 'args': {'docs': item['docs'], 'table': hull_table([allp] + hulls(allp))}})
             return reqs
         return []
 
     def compare(self, case, impl_out, model_out):
+        # Level of comparison (see the comment block above `same_outline`): a DERIVED vertex list up to rotation
+        # and reflection ("listed in boundary order": no start vertex, no direction is fixed), one-/two-vertex
+        # results as sets, boxes and areas exactly, outcomes rejected-vs-accepted (no exception class is named).
         if case.kind == 'derive':
             m = model_out[0]['ok']
-            for k in ('coords', 'area2_all', 'area2_hull'):
-                if impl_out[k] != m[k]:
+            if not same_coords_outcome(impl_out['coords'], m['coords']):
+                return f'coords: impl={short(impl_out["coords"])} model={short(m["coords"])}'
+            for k in ('area2_all', 'area2_hull'):
+                if norm_err(impl_out[k]) != norm_err(m[k]):
                     return f'{k}: impl={short(impl_out[k])} model={short(m[k])}'
             if 'ok' in impl_out['coords'] and m['planar']:
                 if m['cert'] is not True:
@@ -726,29 +834,52 @@ class C09(Check):
                     return ('HullCert rejects the library hull of the hull vertices '
                             + short(impl_out["coords"]["ok"]["points"]) + ' (second call, made by poly_area)')
             return None
-        if case.kind in ('area', 'walk', 'extremes'):
-            return None if impl_out == model_out[0] else f'impl={short(impl_out)} model={short(model_out[0])}'
+        if case.kind == 'area':
+            return None if norm_err(impl_out) == norm_err(model_out[0]) else \
+                f'impl={short(impl_out)} model={short(model_out[0])}'
+        if case.kind == 'walk':
+            # the walk lists the cycle "in boundary order": any start node, either direction
+            return None if same_points_outcome(impl_out, model_out[0]) else \
+                f'impl={short(impl_out)} model={short(model_out[0])}'
+        if case.kind == 'extremes':
+            # the two ends of the segment, as a set (the oracle does not fix their order either); None = not on a line
+            return None if same_points_outcome(impl_out, model_out[0]) else \
+                f'impl={short(impl_out)} model={short(model_out[0])}'
         if case.kind == 'history':
             if 'err' in impl_out:
                 return f'constructor failed: {impl_out}'
             m = model_out[0]['ok']
             io = [o['out'] for o in impl_out['ok']['outs']]
-            if io != m['outs']:
-                for i, (a, b) in enumerate(zip(io, m['outs'])):
-                    if a != b:
-                        return f'op {i} {case.input["ops"][i]}: impl={short(a)} model={short(b)}'
-            if impl_out['ok']['coords'] != m['coords']:
-                return f'final coords: impl={impl_out["ok"]["coords"]} model={m["coords"]}'
+            if len(io) != len(m['outs']):
+                return f'{len(io)} outputs, model {len(m["outs"])}'
+            # coordinates that were ASSIGNED (constructor, `set`) are kept point by point: compared exactly;
+            # coordinates DERIVED by a successful add_child: up to rotation / reflection
+            derived = False
+            for i, (op, a, b) in enumerate(zip(case.input['ops'], io, m['outs'])):
+                if op[0] == 'set':
+                    derived = False
+                if 'coords' in a and 'coords' in b:
+                    same = same_outline(a['coords'], b['coords']) if derived else a['coords'] == b['coords']
+                else:
+                    same = norm_err(a) == norm_err(b)
+                if not same:
+                    return f'op {i} {op}: impl={short(a)} model={short(b)}'
+                if op[0] == 'add' and 'unit' in a:
+                    derived = True
+            fi, fm = impl_out['ok']['coords'], m['coords']
+            if not (same_outline(fi, fm) if derived else fi == fm):
+                return f'final coords: impl={fi} model={fm}'
             return None
         if case.kind == 'region':
             m = model_out[0]
             i = {'ok': impl_out['ok']['points'] if impl_out['ok'] is not None else None} if 'ok' in impl_out \
                 else impl_out
-            if i != m:
+            own = case.input['own'] is not None      # own Coords are kept as given: exact
+            if not ((norm_err(i) == norm_err(m)) if own else same_points_outcome(i, m)):
                 return f'impl={short(i)} model={short(m)}'
             if len(model_out) > 1:
                 d = model_out[1]['ok']
-                if d['coords'] != ({'ok': impl_out['ok']} if 'ok' in impl_out else impl_out):
+                if not same_coords_outcome(d['coords'], impl_out):
                     return f'impl={short(impl_out)} derive-model={short(d["coords"])}'
                 if 'ok' in impl_out and d['planar'] and (d['cert'] is not True or d['cert2'] is not True):
                     return f'HullCert rejects the hull of the children: {short(impl_out)}'
@@ -757,7 +888,7 @@ class C09(Check):
             if 'err' in impl_out:
                 return None if not model_out else f'impl={impl_out} model={short(model_out)}'
             for item, m in zip(impl_out['ok'], model_out):
-                if {'ok': item['coords']} != m['ok']['coords']:
+                if not same_coords_outcome({'ok': item['coords']}, m['ok']['coords']):
                     return f'impl={short(item["coords"])} model={short(m["ok"]["coords"])}'
                 if m['ok']['planar'] and m['ok']['cert'] is not True:
                     return f'HullCert rejects {short(item)}'
@@ -822,6 +953,8 @@ class C09(Check):
         def bad(key, what):
             fs.append(Finding(f'C09:{key}', what, case, out))
         inp = case.input
+        if OUTSIDE in case.tags:      # outside the quantifier: not judged
+            return fs
         if case.kind == 'derive':
             docs = inp['docs']
             if not docs or any(d is None for d in docs):
